@@ -406,3 +406,9 @@ Theorem C16_tr_uc_sub_total : forall m b s o beg en t d fuel,
   = Ok (VPtr (length m) 0, m ++ [cstr_block (zb t)]).
 Proof. exact tr_uc_sub_total. Qed.
 Print Assumptions C16_tr_uc_sub_total.
+
+(* s == NULL (lbuf_get on an empty buffer -- vi.c does call uc_sub with it): a fresh empty string *)
+Theorem C16_tr_uc_sub_null : forall m beg en d fuel, (0 < fuel)%nat -> (G_lit__0 < length m)%nat ->
+  callf cprog fuel (S (S d)) F_uc_sub [VInt 0; VInt beg; VInt en] m = Ok (VPtr (length m) 0, m ++ [cstr_block (zb [])]).
+Proof. exact tr_uc_sub_null. Qed.
+Print Assumptions C16_tr_uc_sub_null.
